@@ -37,14 +37,14 @@ def plan(chunks, rng, mode, every_window=True, extra=0, streams=True):
     ev.append({"ev": "view", "off": 0, "size": -1})
     ws = windows(fs)
     if not every_window:
-        ws = rng.sample(ws, min(len(ws), 12))
+        ws = rng.sample(ws, min(len(ws), 8))
     for (o, n) in ws:
         ev.append({"ev": "readat", "off": o, "n": n, "fresh": rng.random() < 0.15})
-    for (o, n) in rng.sample(ws, min(len(ws), max(4, len(ws) // 5))):
+    for (o, n) in rng.sample(ws, min(len(ws), 4 if every_window else 3)):
         ev.append({"ev": "view", "off": o, "size": n})
     if streams:
         ev.append({"ev": "stream", "off": 0, "size": -1})
-        for (o, n) in rng.sample(ws, min(len(ws), 2)):
+        for (o, n) in rng.sample(ws, min(len(ws), 1)):
             ev.append({"ev": "stream", "off": o, "size": n})
 
     def look(k):
@@ -55,7 +55,7 @@ def plan(chunks, rng, mode, every_window=True, extra=0, streams=True):
             ev.append({"ev": "readat", "off": o, "n": n, "fresh": False})
 
     ev.append({"ev": "compact"})
-    look(1)
+    look(0)
     ev.append({"ev": "manifestize", "batch": rng.choice([2, 2, 3])})
     look(1)
     ev.append({"ev": "nest"})
@@ -134,32 +134,34 @@ def run(ctx):
     rng = random.Random(ctx.seed)
     # 1. design level: dropping invisible chunks / packing into (nested) manifests leaves the content unchanged
     if ctx.thorough:
-        U = {"Offs": set(range(0, 5)), "Sizes": {1, 2, 3}, "Mtimes": {1, 2, 3}, "MaxChunks": 3, "Canon": True, "MaxOps": 2}
+        U = {"Offs": set(range(0, 4)), "Sizes": {1, 2, 3}, "Mtimes": {1, 2}, "MaxChunks": 3, "Canon": True, "MaxOps": 2}
     else:
         U = {"Offs": set(range(0, 3)), "Sizes": {1, 2}, "Mtimes": {1, 2}, "MaxChunks": 3, "Canon": True, "MaxOps": 2}
     mc = ctx.instance("MC_ChunkOverlay", "ChunkOverlay", "ChunkOverlay_mc.cfg", U)
     ctx.model_check(mc, workers=4, timeout=1500)
     # 2. G1: every chunk list (as a multiset, in ascending order) up to 3 chunks over the small universe
     if ctx.thorough:
-        G = {"Offs": set(range(0, 7)), "Sizes": {1, 2, 3, 4}, "Mtimes": {1, 2, 3}, "MaxChunks": 3, "Canon": True, "MaxOps": 0}
+        G = {"Offs": set(range(0, 5)), "Sizes": {1, 2, 3}, "Mtimes": {1, 2, 3}, "MaxChunks": 3, "Canon": True, "MaxOps": 0}
     else:
         G = {"Offs": set(range(0, 4)), "Sizes": {1, 2, 3}, "Mtimes": {1, 2}, "MaxChunks": 3, "Canon": True, "MaxOps": 0}
     g1 = ctx.instance("G1_ChunkOverlay", "ChunkOverlay", "SPECIFICATION Spec\nINVARIANT Emit\nCHECK_DEADLOCK FALSE", G)
     hists = ctx.generate(g1, workers=4, timeout=1500)
     execs = []
     for i, h in enumerate(hists):
-        cs = from_hist(h, reverse=(i % 2 == 1))
-        every = len(cs) <= 2 or i % (8 if ctx.thorough else 3) == 0
+        if not ctx.thorough and len(h) == 3 and (i + ctx.seed) % 2 == 1:
+            continue          # quick: every second 3-chunk list (which half depends on the seed)
+        cs = from_hist(h, reverse=(i % 4 >= 2))
+        every = len(cs) <= 1 or i % (8 if ctx.thorough else 4) == 0
         execs.append(plan(cs, rng, MODES[i % 7], every_window=every, extra=[0, 0, 1, 2][i % 4]))
     if ctx.thorough:
         # four chunks over a narrower universe, sampled windows
-        G4c = {"Offs": set(range(0, 5)), "Sizes": {1, 2, 3}, "Mtimes": {1, 2}, "MaxChunks": 4, "Canon": True, "MaxOps": 0}
+        G4c = {"Offs": set(range(0, 4)), "Sizes": {1, 2, 3}, "Mtimes": {1, 2}, "MaxChunks": 4, "Canon": True, "MaxOps": 0}
         g1b = ctx.instance("G1b_ChunkOverlay", "ChunkOverlay", "SPECIFICATION Spec\nINVARIANT Emit\nCHECK_DEADLOCK FALSE", G4c)
         for i, h in enumerate(ctx.generate(g1b, workers=4, timeout=1500)):
-            if len(h) == 4:
+            if len(h) == 4 and (i + ctx.seed) % 2 == 0:
                 execs.append(plan(from_hist(h, reverse=(i % 2 == 1)), rng, MODES[i % 7], every_window=False,
                                   extra=[0, 1][i % 2]))
-    for i in range(4000 if ctx.thorough else 300):
+    for i in range(2000 if ctx.thorough else 300):
         execs.append(random_exec(rng, big=(i % 4 == 0)))
     if ctx.thorough:
         execs.append(public_batch_exec(rng))
@@ -171,7 +173,8 @@ def run(ctx):
             for ex in execs:
                 for e in ex:
                     f.write(json.dumps(e) + "\n")
-    binp = ctx.build("c17")
+    # VERIF_DRIVER_BIN: a driver built elsewhere (mutation testing against a private copy of the tree)
+    binp = os.environ.get("VERIF_DRIVER_BIN") or ctx.build("c17")
     trace = ctx.drive(binp, ["--script", script], timeout=3000)
 
     def mutate(evs):
@@ -186,11 +189,13 @@ def run(ctx):
     def nontrivial(e):
         return len(e) >= 6 and any('"ev":"readat"' in x for x in e)
 
+    nev = sum(1 for _ in open(trace))
     ctx.judge("ChunkOverlayTrace", trace, "trace_base.cfg",
               {"Offs": set(), "Sizes": set(), "Mtimes": set(), "MaxChunks": 0, "Canon": False, "MaxOps": 0},
-              nontrivial=nontrivial, mutate=mutate, chunk_events=12000, timeout=3000)
-    ctx.rule = ("executions = every multiset of <= 3 chunks over offsets %s, sizes %s, mtimes %s (TLC-enumerated; thorough: "
-                "also every 4-chunk multiset over offsets 0..4, sizes 1..3, mtimes 1..2), each in ascending or reversed "
+              nontrivial=nontrivial, mutate=mutate, chunk_events=max(4000, nev // 8 + 1), timeout=3000)
+    ctx.rule = ("executions = every multiset of <= 3 chunks over offsets %s, sizes %s, mtimes %s (TLC-enumerated; quick: every "
+                "second 3-chunk multiset, the half chosen by the seed; thorough: "
+                "also every second 4-chunk multiset over offsets 0..3, sizes 1..3, mtimes 1..2), each in ascending or reversed "
                 "list order and with the cache/http/slice data path, observed through ViewFromChunks (whole file and "
                 "windows), ReadAt into a 170-prefilled buffer for every window (off, n) up to one byte past the file size "
                 "(sampled windows for the largest lists in thorough), StreamContent, then CompactFileChunks, "
